@@ -111,6 +111,8 @@ func acceptedWorkload(c *fw.Ctx, scale int, emit emitFn) {
 		// a regular expression whose first example can be generated and whose later ones cannot, used by one, two and three schemas
 		"TYPE @t regex\n/(xx|[^\\x{0}-\\x{10FFFF}]q)/\n", "TYPE @t regex\n/(xx|[^\\x{0}-\\x{10FFFF}]q)/\nTYPE @u\n{\"k\": @t}\nTYPE @v\n{\"k\": @t}\n",
 		"TYPE @r regex\n/(a|b|[^\\x{0}-\\x{10FFFF}])/\nTYPE @t\n{\"k\": @r}\nTYPE @u\n{\"k\": @r, \"l\": @r}\nTYPE @v\n[@r, @r]\n",
+		// literal keys that look like type names (quoted "@id", "@type" - JSON-LD style) in a type that others inherit from
+		"TYPE @base\n{\n  \"@id\": 1,\n  \"@type\": \"x\",\n  \"plain\": true\n}\nTYPE @d\n{ // {allOf: \"@base\"}\n  \"own\": 1\n}\nTYPE @t\n{\"k\": 1}\nTYPE @u\n{ // {allOf: [\"@d\", \"@t\"]}\n  \"@context\": \"c\"\n}\n",
 		// schemas of TYPE directives for which no example can be built
 		"TYPE @t\n[] // {or: [{type: \"integer\"}, {type: \"array\"}]}\n", "TYPE @t\n{\n  \"x\": {} // {or: [{type: \"object\"}, {type: \"string\"}]}\n}\n", "TYPE @u\n{\"m\": 1}\nTYPE @t\n{} // {or: [{type: \"object\"}, \"@u\"]}\n",
 		"ENUM @e\n[\"x\", \"y\"]\n", "ENUM @e\n[]\n", "ENUM @e\n[ # nothing\n]\n", "ENUM @e\n[1, 2 // two\n]\n", "TYPE @t\n{\"k\": 1}\nENUM @e\n[\"x\"]\nTYPE @u\n{\"p\": @t}\n"}
